@@ -69,6 +69,8 @@ class Shrink(Checker):
 
 
 def unit(u) -> Stats:
+    if u[0] == "env":
+        return env_unit(u)
     n, tag, v, comps, modes, tol = u
     if isinstance(v, tuple) and v and v[0] == "GEN":
         v = gens.draw(v[1], v[2], v[3])
@@ -86,6 +88,62 @@ def unit(u) -> Stats:
         st.nontrivial += len(chk.nontrivial)
     if n == 3 and tag == "shift#9":
         st.sample({"n": n, "values": list(v), "computers": list(comps), "edges": 12, "modes": list(modes)})
+    return st
+
+
+def env_unit(u) -> Stats:
+    """Gym level: along EVERY reveal order after EVERY reset of one long-lived environment (scripted, differing hidden games)
+    no interval widens and the reward (negated gap) never decreases; it ends at 0."""
+    _, n, games, comp, gap_name, known_extra, tag = u
+    from .. import envs
+    from ..envmodel import EnvCfg, snapshot
+    from ..lattice import read
+    st = Stats()
+    cfg = EnvCfg(n, games, comp, gap_name, None, tag, 0.0, known_extra)
+    env, script = cfg.make()
+    m = len(cfg.ex)
+    for rnd in range(len(games) + 1):
+        if rnd:
+            env.reset()
+        root = snapshot(env)
+        stack = [(root, [], read(root.incomplete_game), float(root.reward))]
+        while stack:
+            e, order, tab, rew = stack.pop()
+            st.states += 1
+            if len(order) == m:
+                st.evals += 1
+                if abs(rew) > 1e-9:
+                    st.violation(f"[env {tag} n={n} {comp} {gap_name}] after reset #{rnd} and revealing everything in order {order} the gap is {-rew}, not 0",
+                                 engine="env-paths", n=n, games=[list(g) for g in games], computer=comp, gap=gap_name, resets=rnd, order=order,
+                                 known_extra=list(known_extra))
+                continue
+            for a in range(m):
+                if a in order:
+                    continue
+                e2 = snapshot(e)
+                _, r2, _, _, _ = e2.step(a)
+                t2 = read(e2.incomplete_game)
+                st.transitions += 1
+                st.evals += 1
+                msg = None
+                if np.any(t2.lo < tab.lo) or np.any(t2.up > tab.up):
+                    s = int(np.flatnonzero((t2.lo < tab.lo) | (t2.up > tab.up))[0])
+                    msg = (f"interval of coalition {s} widened from [{float(tab.lo[s])}, {float(tab.up[s])}] to [{float(t2.lo[s])}, {float(t2.up[s])}]")
+                elif float(r2) < rew - 1e-9 * max(1.0, abs(rew)):
+                    msg = f"gap increased from {-rew} to {-float(r2)}"
+                elif float(r2) > 1e-9:
+                    msg = f"gap is negative ({-float(r2)})"
+                if msg:
+                    st.violation(f"[env {tag} n={n} {comp} {gap_name}] after reset #{rnd}, reveals {order}, revealing action {a} (coalition {cfg.ex[a]}): {msg}",
+                                 engine="env-paths", n=n, games=[list(g) for g in games], computer=comp, gap=gap_name, resets=rnd, order=order + [a],
+                                 known_extra=list(known_extra))
+                    if st.nviol >= 3:
+                        return st
+                    continue
+                if np.any(t2.lo != tab.lo) or np.any(t2.up != tab.up):
+                    st.nontrivial += 1
+                stack.append((e2, order + [a], t2, float(r2)))
+    st.traces += 1
     return st
 
 
@@ -129,6 +187,20 @@ def units(run: Run):
         if quick and i % 8 != seed % 8:
             continue
         us.append((4, f"sam01#{i}", g, ("sam_apx_100",), (), 0.0))
+    # gym level: every reveal order after every reset of one long-lived env with differing scripted hidden games
+    g3 = A.a3_sa()
+    trip3 = [A.shifted(g3[(41 * (seed + 1) + 331 * k) % len(g3)], A.ADD3) if k % 2 else g3[(41 * (seed + 1) + 331 * k) % len(g3)] for k in range(3)]
+    reps4 = A.a4_sa_reps(seed)
+    trip4 = [A.shifted(reps4[(9 * (seed + 1) + 77 * k) % len(reps4)], A.ADD4) for k in range(2)]
+    triples = tuple(s for s in range(16) if A.popcount(s) == 3)
+    pairs = tuple(s for s in range(16) if A.popcount(s) == 2)
+    for ci, comp in enumerate(SA):
+        for gi, gap_name in enumerate(gaps.NAMES):
+            us.append(("env", 3, trip3, comp, gap_name, (), "paths3"))
+            if (ci + gi) % 2 == 0 or not quick:
+                us.append(("env", 4, trip4, comp, gap_name, triples if gi % 2 else pairs, "paths4"))
+    sam3 = A.a3_sam()
+    us.append(("env", 3, [sam3[(13 * seed + 5) % len(sam3)], sam3[(29 * seed + 77) % len(sam3)]], "sam_apx_10", "l1_norm", (), "paths3-sam"))
     width = 2 if quick else 6
     for name in gens.SA_FAMILIES:
         comps = SA + (("sam_apx_1", "sam_apx_10") if gens.is_sam_family(name) else ())
@@ -141,6 +213,8 @@ def units(run: Run):
 
 
 def cost(u) -> float:
+    if u[0] == "env":
+        return 30 if u[1] == 4 else 3
     n, comps = u[0], u[3]
     w = {"superadditive": 2, "superadditive_cached": 1, "sam_apx_1": 2, "sam_apx_10": 8, "sam_apx_100": 60, "sam_apx_1000": 500}
     return (1 if n == 3 else 100) * sum(w[c] for c in comps) * (10 if "euler" in u[4] and n == 4 else 1)
@@ -151,7 +225,7 @@ def run(run: Run) -> None:
     run.rule = ("every reveal edge (K, K+{S}) of the complete knowledge lattice (12 edges n=3, 5120 edges n=4) for every hidden game of the class "
                 "matching the computer: component-wise interval inclusion and non-increase of all four gap functions, each gap compared with its "
                 "first-principles value, >= 0, and 0 at full knowledge; edges judged on canonical tables AND traversed by real reveal/un-reveal on "
-                "one long-lived object (Euler walk). non-trivial = distinct (game, computer, edge) on which some bound actually moved")
+                "one long-lived object (Euler walk); gym level: every reveal order after every reset of one long-lived env with differing hidden games. non-trivial = distinct (game, computer, edge) on which some bound actually moved")
     run.bounds = {"n": [3, 4], "units": len(us), "sam_apx_1000": "n=3 only", "sam_apx_100": "n=3 all K; n=4 on two-valued games"}
     run.assumptions = ["quick tier, n=4: the real gap functions are evaluated on every state of one third of the games (all games in the "
                        "thorough tier); interval inclusion is checked on every edge of every game",
@@ -161,6 +235,10 @@ def run(run: Run) -> None:
 
 
 def replay(doc: dict):
+    if doc.get("engine") == "env-paths":
+        st = env_unit(("env", doc["n"], [tuple(g) for g in doc["games"]], doc["computer"], doc["gap"], tuple(doc.get("known_extra", ())), "replay"))
+        msgs = [v["message"] for v in st.violations]
+        return bool(msgs), "; ".join(msgs[:3]) if msgs else "no interval widens and no gap increases along any reveal order after any reset"
     is_gen = str(doc.get("tag", "")).startswith("gen:")
 
     class Live(Shrink):
